@@ -48,9 +48,11 @@ class Stacker(Transformer):
         self.coords_in = {}
         self.coords_out = {}
         self.data_type = None
+        self.vars_in = tuple()
 
     def get_serialization_attrs(self) -> dict:
         return dict(
+            vars_in=self.vars_in,
             dims_in=self.dims_in,
             dims_out=self.dims_out,
             dims_mapping=self.dims_mapping,
@@ -324,7 +326,8 @@ class Stacker(Transformer):
             }
         )
 
-        # Set dimensions and coordinates
+        # Set variables, dimensions and coordinates
+        self.vars_in = tuple(X.data_vars) if isinstance(X, xr.Dataset) else tuple()
         self.dims_in = X.dims
         self.coords_in = {dim: X.coords[dim] for dim in X.dims}
 
@@ -356,6 +359,12 @@ class Stacker(Transformer):
 
         # Check if data to be transformed has the same feature coordinates as the data used to fit the stacker
         self._validate_transform_feature_coords(X)
+
+        # A Dataset is stacked in the order of its variables and of their dimensions;
+        # present both as they were during fit
+        if isinstance(X, xr.Dataset) and len(self.vars_in) > 0:
+            vars_in = [self.vars_in] if isinstance(self.vars_in, str) else self.vars_in
+            X = X[list(vars_in)].transpose(*self.dims_in)
 
         # Stack data
         sample_dims = self.dims_mapping[self.sample_name]
